@@ -8,10 +8,12 @@
 3. harness/cmd/disp builds real SCION packets with slayers (UDP, SCMP info and error messages quoting
    UDP / SCMP / truncated packets, HBH / E2E extensions, IP / SVC / unknown destination types, IPv4 and
    IPv6 hosts, malformed headers), feeds them to a real dispatcher.Server through the verif export (H5)
-   and logs next hop, port and the decoded reply.
+   and logs next hop, port and the decoded reply; seeded byte-level mutants (truncation, header bit flips,
+   random bytes) of the datagrams follow on the same server (exploration: only next hop and panics are judged).
 4. DispatcherTrace.tla judges every datagram.
 """
 import json
+import random
 import re
 
 import _gw
@@ -19,7 +21,6 @@ import vlib
 
 
 def run(c):
-    c.level = "model_checking"
     if c.replay:
         c.build("disp")
         r = c.validate("DispatcherTrace", "DispatcherTrace.cfg", c.replay)
@@ -41,6 +42,10 @@ def run(c):
     if not scns:
         raise vlib.Infra("generator printed no scenarios")
     scns.sort(key=lambda s: json.dumps(s, sort_keys=True))
+    # exploration: seeded byte-level mutants of the datagrams, processed on the same server instances
+    rnd = random.Random(c.seed * 7919 + 44)
+    for s in scns:
+        s["mut"] = (4 if c.thorough else 1) if rnd.random() < 0.5 else 0
     nchunks = 8 if c.thorough else 4
     traces = []
     for i, chunk in enumerate(_gw.deal(scns, nchunks, lambda s: len(s["seq"]))):
@@ -61,6 +66,7 @@ def account(c, traces, res):
     ntr = evs = 0
     distinct = set()
     kinds = {"drop": 0, "fwd": 0, "reply": 0}
+    muts = {}
     samples = {}
     for t in traces:
         with open(t) as f:
@@ -70,6 +76,9 @@ def account(c, traces, res):
                     ntr += 1
                     continue
                 evs += 1
+                if ev["ev"] == "mut":
+                    muts[ev["k"]] = muts.get(ev["k"], 0) + 1
+                    continue
                 kinds[ev["k"]] = kinds.get(ev["k"], 0) + 1
                 if ev["k"] != "drop":
                     distinct.add(json.dumps(ev["d"], sort_keys=True))
@@ -86,7 +95,7 @@ def account(c, traces, res):
                      "replied; distinct = distinct abstract datagrams among those")
     for s in samples.values():
         c.sample(s)
-    c.notes.append("decisions: %s" % kinds)
+    c.notes.append("decisions: %s; byte-level mutants: %s" % (kinds, muts))
     if drift:
         c.notes.append("drift: %s" % drift)
     # the statement is an only-if: guard against vacuity
